@@ -76,6 +76,10 @@ def verify_function(repo, qual, con, types, contracts, specfuns=None, timeout_ms
     """Symbolically execute the real function under its contract; return FuncResult."""
     t0 = time.time()
     fr = FuncResult(qual)
+    if con.get("py_classes"):
+        # classes this contract wants as plain Python objects with exact attribute sets (built by the real constructor on the
+        # path) instead of the typed SMT heap records other contracts use for them
+        types = {k: v for k, v in types.items() if k not in con["py_classes"]}
     E = Engine(repo, types, contracts, specfuns)
     E.current = qual
     E.raised = []
